@@ -31,6 +31,7 @@ func c05(c *Ctx) {
 	c05R5(c)
 	c05R6(c)
 	c05R7(c)
+	c05R8(c)
 }
 
 func isResetVal(v ssa.Value) bool {
@@ -503,4 +504,44 @@ func globalOf(c *Ctx, rel, name string) *ssa.Global {
 	}
 	g, _ := sp.Members[name].(*ssa.Global)
 	return g
+}
+
+
+// c05R8: read-only queries run on a state of their own.
+func c05R8(c *Ctx) {
+	rule := c.R.Rule("R8", "queries do not share mutable state: the StateDB given to vm.NewEVM in queryContract is created for that query — app.state.Copy() evaluated in the call, or a state opened with New(...) for a past height — never a field or a cached object that a previous query's dry run has already modified", 2)
+	f := c.Anchor(rule, evmT+".queryContract")
+	if f == nil {
+		return
+	}
+	n := 0
+	for _, ci := range f.CallsTo(cfgx.Named("eth/core/vm.NewEVM")) {
+		n++
+		st := ci.Common().Args[1]
+		for {
+			if mi, isMI := st.(*ssa.MakeInterface); isMI {
+				st = mi.X
+				continue
+			}
+			if ch, isCh := st.(*ssa.ChangeInterface); isCh {
+				st = ch.X
+				continue
+			}
+			break
+		}
+		ok := false
+		if call, isCall := st.(*ssa.Call); isCall {
+			cn := cfgxCallee(call)
+			ok = cn == "eth/core/state.(*StateDB).Copy" || cn == "eth/core/state.New"
+		}
+		if ex, isEx := st.(*ssa.Extract); isEx {
+			if call, isCall := ex.Tuple.(*ssa.Call); isCall && cfgxCallee(call) == "eth/core/state.New" {
+				ok = true
+			}
+		}
+		c.R.Ob(rule, "queryContract:NewEVM-state-is-fresh", ok, c.Pos(ci), fname(f), "query state is "+shorten(exprOf(st))+": a state object shared between queries keeps the writes of an earlier dry run, so the answer depends on which queries this replica served")
+	}
+	if n == 0 {
+		c.R.Undecided(rule, "queryContract:NewEVM", c.P.Pos(f.F.Pos()), fname(f), "no EVM constructed")
+	}
 }
